@@ -426,13 +426,16 @@ def run(rep, sub=False):
             rep.bad('C03.4.visibility-hole', 'visibility-hole', where_t, '`visibility:` / `binding:` are not interpolated holes', undecided=True)
             continue
         idx_leaf = []
-        E.walk(bnd[2], lambda x: idx_leaf.append(x) if x[0] == 'f' and x[2] == 'binding_index' else None)
+        from roles import binding_roles
+        ROLES, _rec = binding_roles(ogp)
+        IDX_F, NAME_F = (ROLES['index'], ROLES['name']) if ROLES else ('binding_index', 'name')
+        E.walk(bnd[2], lambda x: idx_leaf.append(x) if x[0] == 'f' and x[2] == IDX_F else None)
         arg = stages_argument(vis[2])
         if arg is None or not idx_leaf:
             rep.bad('C03.4.visibility-hole', 'visibility-arg', where_t, 'cannot identify the stage set that is printed into `visibility:`', undecided=True)
             continue
         binding = idx_leaf[0][1]
-        nameT = ('f', binding, 'name')
+        nameT = ('f', binding, NAME_F)
         gets = []
         E.walk(arg, lambda x: gets.append(x) if x[0] == 'mcall' and x[2] == 'get' and not any(x == g for g in gets) else None)
         ok_map = len(gets) == 1 and gets[0][1][0] == 'new' and gets[0][1][1] in ('BTreeMap', 'HashMap') and gets[0][1][3] == () and gets[0][3] == [('unwrap', nameT)]
